@@ -525,4 +525,18 @@ func init() {
 		props[id].Bounds["thorough"] += "; " + gen
 		props[id].Harnesses = append(props[id].Harnesses, HarnessSpec{Name: "VerifH_match_generated", ThoroughOnly: true, Covers: []string{"generated", "dispatched", "not-dispatched"}})
 	}
+
+	verbsNote := "one template bound with each rule pattern kind (get, put, post, delete, patch, custom) to six methods: each verb reaches its own method, an unbound verb is not dispatched"
+	ext("C01", verbsNote, HarnessSpec{Name: "VerifH_match_verbs", Covers: []string{"verb-GET", "verb-PUT", "verb-POST", "verb-DELETE", "verb-PATCH", "verb-LIST", "unbound-verb"}})
+	ext("C02", verbsNote, HarnessSpec{Name: "VerifH_match_verbs", Covers: []string{"verb-PUT", "verb-DELETE", "verb-PATCH"}})
+	ext("C01", "typed conversion of captured / query text by parseParam (the same function converts path captures): string, bytes (padded and unpadded base64, both alphabets), enum, bool, int32 / int64 / uint32 incl. range limits",
+		HarnessSpec{Name: "VerifH_params", Covers: []string{"bytes", "bytes-rejected", "int32", "bool"}})
+	dr := "four overlapping variable bindings of four methods on one trie node, registered in either order; after delRule of any one the trie routes every ASCII path /v1/<0..5 (6) bytes> exactly as a trie built without that rule"
+	ext("C02", dr, HarnessSpec{Name: "VerifH_match_delrule", Covers: []string{"dispatched", "not-dispatched"}})
+	ext("C11", dr, HarnessSpec{Name: "VerifH_match_delrule", Covers: []string{"dispatched", "not-dispatched"}})
+	ext("C16", "field paths of variables and body selectors over a request type with nested (depth 3), repeated and map message fields: 10 paths x {variable, body}; accepted ones must route and be storable, paths through repeated / map / scalar / unknown fields must be rejected",
+		HarnessSpec{Name: "VerifH_addRule_fieldpaths", Covers: []string{"accepted", "rejected", "depth-3"}})
+	replaceOutside("C16", "kind '*' of one method vs a specific verb of another on the same path (unspecified)", "a kind-* binding added on a path where another method already holds one specific verb (the reverse order is asserted to be a conflict)")
+
+	ext("C16", "panic-freedom at the lexer's 64-token cap (shared with C09)", HarnessSpec{Name: "VerifH_match_tokencap", Covers: []string{"rejected", "dispatched"}})
 }
